@@ -10,7 +10,7 @@
      - only calls and `throw` can throw; identifiers and literals are pure;
      - `for-in/of` may iterate any number of times (also zero);
      - a `switch` may jump to any of its cases (to `default` when nothing matches),
-       and past all of them when it has no `default`;
+       and past all of them when it has no `default`; evaluating a case test that is a call may throw;
      - a nested function may be called by anyone, so its body may be entered, and
        evaluating a function declaration / arrow expression completes normally.
    Executions carry no state, so every loop iteration has the same possible outcomes. *)
@@ -95,6 +95,7 @@ Inductive exec : list N -> stmt -> completion -> Prop :=
 (* switch *)
 | X_switch ls p cs cs' k : case_suffix cs' cs -> exec_c cs' k -> exec ls (SSwitch p cs) (unbreak k)
 | X_switch_nomatch ls p cs : has_default cs = false -> exec ls (SSwitch p cs) Normal
+| X_switch_test_thr ls p cs : tests_throw cs = true -> exec ls (SSwitch p cs) Thr
 (* label *)
 | X_label ls p l b k : exec (l :: ls) b k -> exec ls (SLabel p l b) (unlabel l k)
 (* try: block, then handler if the block threw and there is one, then finalizer *)
